@@ -1,4 +1,5 @@
 import RawPanelVerif.Gen.Consts
+import RawPanelVerif.Gen.NetSites
 import RawPanelVerif.Base.Bytes
 /-!
 # Net model — data path of `ConnectToPanel` (connecttopanel.go) and of
@@ -191,6 +192,70 @@ def DlOp.readOnly : DlOp → Bool
   | .clear .both => false
   | .arm .both _ => false
   | _ => true
+
+/-! ### The configuration the source has
+
+`Gen.deadlineSites` is regenerated from connecttopanel.go on every run: every `Set…Deadline` call of `ConnectToPanel`
+in source order with its position in the loop structure.  `cfgOfSites` reads the configuration off that list; a call
+at a place (or with an argument) the model has no field for gives `none`.  That the result is `repaired` is a proof
+obligation of C08, C09 and C10 (`…repaired_is_the_source_layout`), so a change that drops, moves, adds or rewrites a
+deadline call no longer passes as "the code as it is". -/
+
+/-- the call: `SetReadDeadline` / `SetDeadline`, `time.Time{}` / `time.Now().Add(constant)` -/
+def opOfSite (s : Gen.DeadlineSite) : Option DlOp :=
+  match s.fn, s.clear, s.addMs with
+  | 0, true, none => some (.clear .read)
+  | 1, true, none => some (.clear .both)
+  | 0, false, some ms => some (.arm .read ms)
+  | 1, false, some ms => some (.arm .both ms)
+  | _, _, _ => none
+
+/-- the place, as the index of the `Cfg` field (order of `Cfg.ops`):
+0  probeArm      in the connection loop (else-branch of the dial error test), before the probe `Read`
+1  afterProbe    same block, after the probe `Read`, under no further condition
+2  loopTop       first statement of the binary read loop (then-branch of `if binaryPanel`)
+3  hdrRest       in that loop, after the read of the first header byte, under `if err == nil`
+4  payload       in that loop, after both header reads, under `else { if len < limit {`
+5  afterPayload  in that loop, after the payload read, in the same block or below it -/
+def slotOfSite (s : Gen.DeadlineSite) : Option Nat :=
+  if s.loops = 1 ∧ s.path = [0] ∧ s.reads = 0 then some 0
+  else if s.loops = 1 ∧ s.path = [0] ∧ s.reads = 1 then some 1
+  else if s.loops = 2 ∧ s.path = [0, 1] ∧ s.reads = 1 ∧ s.first = true then some 2
+  else if s.loops = 2 ∧ s.path = [0, 1, 1] ∧ s.reads = 2 then some 3
+  else if s.loops = 2 ∧ s.path = [0, 1, 0, 1] ∧ s.reads = 3 then some 4
+  else if s.loops = 2 ∧ s.path.take 4 = [0, 1, 0, 1] ∧ s.reads = 4 then some 5
+  else none
+
+def Cfg.noCalls : Cfg :=
+  { probeArm := .skip, afterProbe := .skip, loopTop := .skip, hdrRest := .skip, payload := .skip }
+
+def Cfg.setSlot (c : Cfg) (i : Nat) (op : DlOp) : Cfg :=
+  match i with
+  | 0 => { c with probeArm := op }
+  | 1 => { c with afterProbe := op }
+  | 2 => { c with loopTop := op }
+  | 3 => { c with hdrRest := op }
+  | 4 => { c with payload := op }
+  | _ => { c with afterPayload := op }
+
+/-- the sites in source order fill the fields in field order, each at most once (`next` = first field still free) -/
+def placeSites : List Gen.DeadlineSite → Nat → Cfg → Option Cfg
+  | [], _, c => some c
+  | s :: r, next, c =>
+    match slotOfSite s, opOfSite s with
+    | some i, some op => if next ≤ i then placeSites r (i + 1) (c.setSlot i op) else none
+    | _, _ => none
+
+def cfgOfSites (l : List Gen.DeadlineSite) : Option Cfg := placeSites l 0 Cfg.noCalls
+
+/-- a site list written by hand (NOT the regenerated one): the five calls of the repaired code, for examples that must
+not depend on the source of the day -/
+def exampleSites : List Gen.DeadlineSite := [
+  { fn := 0, clear := false, addMs := some 2000, loops := 1, path := [0], first := false, reads := 0 },
+  { fn := 0, clear := true, addMs := none, loops := 1, path := [0], first := false, reads := 1 },
+  { fn := 0, clear := true, addMs := none, loops := 2, path := [0, 1], first := true, reads := 1 },
+  { fn := 0, clear := false, addMs := some 2000, loops := 2, path := [0, 1, 1], first := false, reads := 2 },
+  { fn := 0, clear := false, addMs := some 2000, loops := 2, path := [0, 1, 0, 1], first := false, reads := 3 }]
 
 /-! ## Binary reader with the deadlines as state -/
 
